@@ -27,6 +27,11 @@ class ExprUnaryModel(ExprModel):
         
         return ret
     
+    def is_signed(self):
+        # Currently-supported unary expressions have the 
+        # same signedness as the base expression
+        return self.expr.is_signed()
+    
     def width(self):
         # Currently-supported unary expressions have the 
         # same width as the base expression
